@@ -140,6 +140,13 @@ def tasks(tier, seed):
         T.append(('witness',))
         for NP, N, cap in [(1, 1, 1200), (1, 2, 300), (1, 3, 900), (2, 2, 300), (2, 3, 900), (2, 1, 1200)]:
             T.append(('L2', NP, N, cap))
+    # chaining INSIDE a block for every convergence pattern (block explorations of C07 with the clause 'chaining': what a finished step holds as its
+    # initial value is its left neighbour's end value), all_to_done included
+    from harness import c07
+
+    for t in c07.tasks(tier, seed, deepest=False):
+        if t[0] >= 2 and t[7] is None and (tier != 'quick' or (t[0] == 2 and t[2] <= 2)):
+            T.append(('ctrl', t))
     return T
 
 
@@ -155,6 +162,10 @@ def run_task(rep, task):
         from harness import c09
 
         return c09.adrun_case(rep, *task[1:], pid=PID, clauses=('tiling', 'chaining'))
+    if task[0] == 'ctrl':
+        from harness import c07
+
+        return c07.explore_config(rep, task[1], clauses=('chaining', 'exception'), pid=PID)
     if task[0] == 'L1':
         l1_case(rep, task[1], task[2], *(task[3:4]))
     elif task[0] == 'L1het':
@@ -631,6 +642,10 @@ def replay(path):
         from harness import c09
 
         return c09.replay(path)
+    if isinstance(d.get('task'), list) and d['task'] and (isinstance(d['task'][0], int) or len(d['task']) == 8):
+        from harness import c07
+
+        return c07.replay(path)
     OPTS['dt_initial_factor'] = d.get('dt_initial_factor')
     bad, r = judge_float(d['NP'], d['t0'], d['dt'], d['Tend'])
     print('float run:', r)
